@@ -243,6 +243,10 @@ class Crazyflie():
         This is used to determine if we are connected to something that is
         answering.
         """
+        if self.link is None:
+            # The link was closed, or failed, in a callback that was called
+            # before this one for the same packet
+            return
         self.state = State.CONNECTED
         self.link_established.call(self.link_uri)
         self.packet_received.remove_callback(self._check_for_initial_packet_cb)
